@@ -378,6 +378,10 @@ int main(int argc, char **argv) {
             bool r = zck_init_write(C(t[1]), fds[slot(t[2])]);
             zckCtx *z = C(t[1]);
             RET("\"rc\":%d,\"temp_fd\":%d", (int)r, z ? z->temp_fd : -99);
+        } else if(!strcmp(op, "setfd")) {
+            /* setfd C F : point context C at the descriptor in slot F (zck_set_fd) */
+            bool r = zck_set_fd(C(t[1]), fds[slot(t[2])]);
+            RET("\"rc\":%d", (int)r);
         } else if(!strcmp(op, "read_lead")) {
             bool r = zck_read_lead(C(t[1]));
             RET("\"rc\":%d", (int)r);
